@@ -43,7 +43,7 @@ from harness.common import LEAN, REPO, VERIF, Check, InfraError, sh
 
 EPS = 1e-8
 CACHE = VERIF / '.cache'
-GEN_VERSION = 'pipe-batch-5'
+GEN_VERSION = 'pipe-batch-6'
 
 
 # =========================================================================
@@ -156,6 +156,12 @@ def build_model(spec: dict):
         'cx-u3': lambda: {G.CNOTGate(), G.U3Gate()},
         'cz-rz-sx': lambda: {G.CZGate(), G.RZGate(), G.SqrtXGate()},
         'cx-u1-rx': lambda: {G.CNOTGate(), G.U1Gate(), G.RXGate()},
+        # "mixed" Z-X sets: phase gate and X gate of the ZXZXZ rule are chosen independently
+        'cx-u1-sx': lambda: {G.CNOTGate(), G.U1Gate(), G.SqrtXGate()},
+        'cz-rz-rx': lambda: {G.CZGate(), G.RZGate(), G.RXGate()},
+        'cx-zx-all': lambda: {G.CNOTGate(), G.U1Gate(), G.RZGate(), G.RXGate(),
+                              G.SqrtXGate()},
+        'cx-h-t': lambda: {G.CNOTGate(), G.HGate(), G.TGate()},
         'cz-varu': lambda: {G.CZGate(), G.VariableUnitaryGate(1)},
         'cx-swap-u3': lambda: {G.CNOTGate(), G.SwapGate(), G.U3Gate()},
         'cx-nosq': lambda: {G.CNOTGate()},
@@ -164,6 +170,67 @@ def build_model(spec: dict):
         'qutrit': lambda: {G.CSUMGate(3), G.VariableUnitaryGate(1, [3])},
     }[spec['gates']]()
     return MachineModel(n, cg, gs, [radix] * n)
+
+
+def hub_circuit(rng: random.Random, width: int, nops: int, *, hub=0,
+                barrier=False, measure=False):
+    """Every two-qudit gate touches the `hub` qudit and every other qudit is used: on a line or
+    a star whose centre is not physical qudit `hub` the layout pass must move the hub, so the
+    placement is NOT the identity when the block passes of levels 3-4 run."""
+    from bqskit.ir.circuit import Circuit
+    G = _gates()
+    c = Circuit(width)
+    others = [q for q in range(width) if q != hub]
+    seq = list(others)
+    while len(seq) < max(nops, len(others)):
+        seq.append(rng.choice(others))
+    rng.shuffle(seq)
+    bar_at = rng.randrange(1, len(seq)) if barrier and width >= 3 else -1
+    for i, q in enumerate(seq):
+        if i == bar_at:
+            loc = sorted(rng.sample(range(width), rng.randint(2, width - 1)))
+            c.append_gate(G.BarrierPlaceholder(len(loc)), loc)
+        pair = (hub, q) if rng.random() < 0.6 else (q, hub)
+        c.append_gate(rng.choice([G.CNOTGate(), G.CZGate(), G.CNOTGate()]), pair)
+        if rng.random() < 0.6:
+            c.append_gate(G.U3Gate(), rng.choice(pair),
+                          [rng.uniform(-3, 3) for _ in range(3)])
+    if measure:
+        qs = sorted(rng.sample(range(width), rng.randint(1, width)))
+        ms = {q: ('c', i) for i, q in enumerate(qs)}
+        c.append_gate(G.MeasurementPlaceholder([('c', len(qs))], ms), qs)
+    return c
+
+
+def partial_barrier_circuit(rng: random.Random, width: int, nlayers: int):
+    """Layers of two-qudit gates on disjoint neighbouring pairs; between two layers a barrier
+    over a PROPER SUBSET of the qudits, so that gates on the other qudits become executable in
+    the same router step as the barrier."""
+    from bqskit.ir.circuit import Circuit
+    G = _gates()
+    c = Circuit(width)
+
+    def pairs(off):
+        return [(a, a + 1) for a in range(off, width - 1, 2)]
+
+    def layer(off):
+        for a, b in pairs(off):
+            c.append_gate(G.U3Gate(), a, [rng.uniform(-3, 3) for _ in range(3)])
+            c.append_gate(G.U3Gate(), b, [rng.uniform(-3, 3) for _ in range(3)])
+            c.append_gate(rng.choice([G.CNOTGate(), G.CZGate()]), (a, b))
+    bar_after = rng.randrange(0, max(1, nlayers - 1))
+    for i in range(nlayers):
+        layer(i % 2)
+        if i == bar_after:
+            # one gate of the NEXT layer stays clear of the barrier (it is ready in the same
+            # step as the barrier), the barrier covers >= 2 of the other qudits
+            free = rng.choice(pairs((i + 1) % 2))
+            rest = [q for q in range(width) if q not in free]
+            k = rng.randint(2, len(rest)) if len(rest) >= 2 else len(rest)
+            loc = sorted(rng.sample(rest, k))
+            if len(loc) >= 1:
+                c.append_gate(G.BarrierPlaceholder(len(loc)), loc)
+    return c
 
 
 def rand_circuit(rng: random.Random, width: int, nops: int, *, radix=2,
@@ -268,6 +335,19 @@ def rand_unitary(rng: random.Random, width: int, radix: int, style: str):
         return c2.get_unitary()
     if style == 'swap':
         return UnitaryMatrix(G.SwapGate().get_unitary().numpy)
+    if style in ('swap-local', 'local-swap'):
+        # a qudit relabelling times a product of single-qudit unitaries: with the output (input)
+        # qudits relabelled no entangler is needed, so a permutation-aware synthesis has a
+        # strictly better non-identity permutation to choose
+        loc = np.eye(1)
+        for _ in range(width):
+            loc = np.kron(loc, rand_unitary(rng, 1, radix, 'haar').numpy)
+        perm = list(range(width))
+        while perm == list(range(width)):
+            rng.shuffle(perm)
+        P = perm_matrix(width, radix, perm)
+        return UnitaryMatrix(P @ loc if style == 'swap-local' else loc @ P,
+                             [radix] * width)
     raise ValueError(style)
 
 
@@ -359,12 +439,28 @@ def jobs_for(seed: int, tier: str) -> list[dict]:
       {'n': 2, 'shape': 'a2a', 'gates': 'cx-u3'}, 1, ms=2, thr=1e-2)
     J('circ-swap-native', 'circuit', [circ(4, rng.randint(5, 8))],
       {'n': 4, 'shape': 'line', 'gates': 'cx-swap-u3'}, 1, ms=3)
+    # levels 3-4 with a layout that is NOT the identity: the hub qudit of the input sits on an end
+    # of the line, so the layout pass must move it before the block passes run
     if seed % 2 == 0:
-        J('circ-L3', 'circuit', [circ(3, 5)],
+        J('circ-L3', 'circuit', [circ(3, 4, hub=rng.choice([0, 2]), measure=True)],
           {'n': 3, 'shape': 'line', 'gates': 'cx-u3'}, 3, ms=3)
     else:
-        J('circ-L4', 'circuit', [circ(3, 5)],
+        J('circ-L4', 'circuit', [circ(3, 4, hub=rng.choice([0, 2]), barrier=True)],
           {'n': 3, 'shape': 'line', 'gates': 'cx-u3'}, 4, ms=3)
+    # a list of three inputs whose sizes are in no monotone order (dims 2, 4, 4 -> sorting by size
+    # is a 3-cycle, not a swap), and a "mixed" Z-X gate set, on the real runtime
+    J('uni-list-3sizes', 'unitary',
+      [{'t': 'unitary', 'width': w, 'radix': 2, 'style': 'haar'}
+       for w in rng.choice([(1, 2, 2), (1, 1, 2), (2, 1, 2)])],
+      {'n': 2, 'shape': 'a2a', 'gates': 'cx-u3'}, 1, ms=2, thr=1e-2)
+    J('circ-zx-mixed', 'circuit', [circ(3, rng.randint(4, 6))],
+      {'n': 3, 'shape': 'line',
+       'gates': rng.choice(['cx-u1-sx', 'cz-rz-rx'])}, 1)
+    J('uni-swaplocal-L4', 'unitary',
+      [{'t': 'unitary', 'width': 2, 'radix': 2,
+        'style': rng.choice(['swap-local', 'local-swap'])}],
+      {'n': 2, 'shape': 'a2a', 'gates': 'cx-u3'}, 4, ms=2, thr=1e-2,
+      expect='permuted')
     # --- unitaries
     styles = ['haar', 'perm', 'diag', 'clifford', 'near-identity', 'identity']
     J('uni-2q-list', 'unitary',
@@ -524,6 +620,64 @@ def jobs_for(seed: int, tier: str) -> list[dict]:
                     'npairs': rng.randint(1, 2 ** w)}],
                   {'n': w, 'shape': 'a2a', 'gates': 'cx-u3'},
                   lv, local=(lv == 4 or w == 1))
+    # --- strengthening round 3: the REAL compile() on an in-process compiler (local='compile',
+    #     harness/pipe_stage.py: no runtime lock, ForEachBlockPass contract monitor active)
+    def IP(tag, kind, inputs, model, level, **kw):
+        J(tag, kind, inputs, model, level, local='compile', **kw)
+    # list inputs of 3-4 elements of different sizes in EVERY order (the non-monotone ones are
+    # the point; the two monotone ones come along)
+    for k, ws in enumerate(it.permutations((1, 2, 3))):
+        IP(f'ip-list-circ-{"".join(map(str, ws))}', 'circuit',
+           [circ(w, rng.randint(2, 4), measure=(w == 2 and k % 2 == 0)) for w in ws],
+           {'n': 3, 'shape': 'line', 'gates': 'cx-u3'}, 1, ms=2, thr=1e-2)
+    four = [p for p in it.permutations((1, 2, 3, 4))
+            if list(p) not in ([1, 2, 3, 4], [4, 3, 2, 1])]
+    for ws in rng.sample(four, 3 if tier == 'quick' else 12):
+        IP(f'ip-list-circ-{"".join(map(str, ws))}', 'circuit',
+           [circ(w, rng.randint(2, 3)) for w in ws],
+           {'n': 4, 'shape': rng.choice(['star', 'line']), 'gates': 'cx-u3'}, 1,
+           ms=2, thr=1e-2)
+    ties = [(1, 2, 2), (2, 1, 2), (2, 2, 1), (1, 1, 2), (1, 2, 1), (2, 1, 1)]
+    for ws in rng.sample(ties, 2 if tier == 'quick' else 6):
+        IP(f'ip-list-uni-{"".join(map(str, ws))}', 'unitary',
+           [{'t': 'unitary', 'width': w, 'radix': 2,
+             'style': rng.choice(['haar', 'diag', 'clifford'])} for w in ws],
+           {'n': 2, 'shape': 'a2a', 'gates': 'cx-u3'}, 1, ms=2, thr=1e-2)
+    ws = rng.choice(ties)
+    IP(f'ip-list-state-{"".join(map(str, ws))}', 'state',
+       [{'t': 'state', 'width': w, 'radix': 2,
+         'style': rng.choice(['random', 'ghz', 'basis'])} for w in ws],
+       {'n': 2, 'shape': 'a2a', 'gates': 'cx-u3'}, 1, ms=2, thr=1e-2)
+    # levels 3-4 on sparse graphs where the layout is not the identity (hub input on a line / on
+    # a star whose centre is another qudit / on a wider star), measurements, barriers over a
+    # proper subset of the qudits with independent gates next to them
+    IP('ip-L3-hub-line', 'circuit', [circ(3, 4, hub=rng.choice([0, 2]), measure=True)],
+       {'n': 3, 'shape': 'line', 'gates': 'cx-u3'}, 3, ms=3)
+    IP('ip-L3-hub-star-wide', 'circuit',
+       [circ(3, 4, hub=rng.choice([1, 2]), barrier=True)],
+       {'n': 4, 'shape': 'star', 'gates': 'cx-u3'}, 3, ms=2, thr=1e-2)
+    IP('ip-L4-partial-barrier', 'circuit',
+       [circ(5, rng.choice([2, 3]), partial_barrier=True)],
+       {'n': 5, 'shape': 'line', 'gates': 'cx-u3'}, 4, ms=2, thr=1e-2)
+    IP('ip-L4-hub-barrier', 'circuit',
+       [circ(4, 4, hub=rng.choice([0, 3]), barrier=True, measure=True)],
+       {'n': 4, 'shape': 'line', 'gates': 'cx-u3'}, 4, ms=2, thr=1e-2)
+    # "mixed" single-qudit Z-X sets, every input kind that goes through the single-qudit retarget
+    for gs in ('cx-u1-sx', 'cz-rz-rx', 'cx-zx-all'):
+        IP(f'ip-zx-{gs}', 'circuit', [circ(3, rng.randint(4, 6), measure=True)],
+           {'n': 3, 'shape': 'line', 'gates': gs}, rng.choice([1, 1, 2]))
+    IP('ip-zx-unitary', 'unitary',
+       [{'t': 'unitary', 'width': 1, 'radix': 2, 'style': 'haar'}],
+       {'n': 1, 'shape': 'a2a', 'gates': rng.choice(['cx-u1-sx', 'cz-rz-rx'])}, 1)
+    IP('ip-zx-state', 'state',
+       [{'t': 'state', 'width': 1, 'radix': 2, 'style': 'random'}],
+       {'n': 1, 'shape': 'a2a', 'gates': rng.choice(['cx-u1-sx', 'cz-rz-rx'])}, 1)
+    # level-4 unitary synthesis where a non-identity permutation is strictly better
+    for st in ('swap-local', 'local-swap'):
+        IP(f'ip-{st}-L4', 'unitary',
+           [{'t': 'unitary', 'width': 2, 'radix': 2, 'style': st}],
+           {'n': 2, 'shape': 'a2a', 'gates': 'cx-u3'}, 4, ms=2, thr=1e-2,
+           expect='permuted')
     # --- qutrit circuit with a single-qudit gate that is not native (GeneralSQDecomposition
     #     raised on qutrit blocks before the fix d7fbe96)
     J('probe-qutrit-sq', 'circuit',
@@ -560,6 +714,12 @@ def build_input(spec: dict, rng: random.Random):
                               [rng.uniform(-3, 3) for _ in range(3)])
                 c.append_gate(G.CZGate(), (b, a))
             return c
+        if spec.get('hub') is not None:
+            return hub_circuit(rng, spec['width'], spec['nops'], hub=spec['hub'],
+                               barrier=spec.get('barrier', False),
+                               measure=spec.get('measure', False))
+        if spec.get('partial_barrier'):
+            return partial_barrier_circuit(rng, spec['width'], spec['nops'])
         kw = {k: v for k, v in spec.items()
               if k in ('three', 'barrier', 'measure', 'blocked', 'radix')}
         return rand_circuit(rng, spec['width'], spec['nops'], **kw)
@@ -679,6 +839,30 @@ def run_local(job: dict, log) -> dict:
            'K': None, 'err': None, 'dt': 0.0, 'local': True}
     t0 = time.time()
     outs, Ks, errs = [], [], []
+    if job.get('local') == 'compile':
+        # the REAL compile() (list handling, mappings) on an in-process compiler
+        from harness.pipe_stage import compile_in_process
+        try:
+            r = compile_in_process(job, ins, model, timeout=420)
+            res['out'] = r['out']
+            k = max([count_replaced(d) for d in r['datas']] or [0])
+            res['K'] = [k] * len(ins)
+            res['err'] = [float(d.error) for d in r['datas']]
+            res['monitor'] = r['monitor']
+        except JobTimeout as e:
+            res['exc'] = f'JobTimeout: {e}'
+            res['timeout'] = True
+        except Exception as e:
+            res['in_process'] = (f'{type(e).__name__}: {e} '
+                                 f'[at {raise_site(e)}]').replace('\n', ' ')[:500]
+            res['exc'] = 'IN-PROCESS: ' + res['in_process']
+            if len(ins) > 1:
+                # does one of the per-input workflows raise, or compile()'s list handling?
+                res['in_process'] = diagnose(res, log)
+        res['dt'] = time.time() - t0
+        log(f"  {job['tag']} (compile() in process): {res['dt']:.1f}s"
+            + (f" EXC {res['exc'][:110]}" if res['exc'] else ''))
+        return res
     for inp in ins:
         try:
             c, pi, pf, d = run_in_process(job, inp, model, timeout=300)
@@ -711,7 +895,9 @@ def run_batch(ck: Check, jobs: list[dict], workers: int, log) -> list[dict]:
     from bqskit import compile as bq_compile
     from harness.pipe_rt import (JobTimeout, RuntimeUnavailable, alarm,
                                  shared_compiler)
-    job_timeout = 600 if ck.tier == 'quick' else 900
+    # quick tier: the slowest job takes < 60 s on a loaded machine; a runtime whose workers died
+    # answers nothing, and the machine-wide lock must not be held for 10 minutes (RUNTIME_LOCK.md)
+    job_timeout = 240 if ck.tier == 'quick' else 900
     results: list[dict] = []
     t_all = time.time()
     # cells that raise on the code as it is: in process, before the runtime lock is taken
@@ -835,10 +1021,13 @@ def get_batch(ck: Check, log) -> list[dict]:
         # development aid (the machine-wide runtime lock can be queued for an hour): every
         # job in process on the synchronous runtime handle; recorded in the evidence
         for j in jobs:
-            j['local'] = True
+            j['local'] = j.get('local') or True
         ck.coverage['batch_all_in_process'] = True
+    hsrc = hashlib.sha256(
+        (VERIF / 'harness' / 'pipeline.py').read_bytes()
+        + (VERIF / 'harness' / 'pipe_stage.py').read_bytes()).hexdigest()
     key = hashlib.sha256(
-        (repo_sha() + f'/{ck.seed}/{ck.tier}/{GEN_VERSION}/'
+        (repo_sha() + f'/{ck.seed}/{ck.tier}/{GEN_VERSION}/{hsrc}/'
          + repr(jobs)).encode()).hexdigest()[:24]
     f = CACHE / f'pipe-{key}.pkl'
     lock = open(CACHE / f'pipe-{key}.lock', 'w')
@@ -1144,25 +1333,40 @@ def oracle_c03(ck: Check, res: dict, inp, out, K: int, idx: int, emit):
              f'for a {n}-qudit target', res, idx)
         return
     bud = (K + 3) * math.sqrt(2 * EPS - EPS * EPS) + 1e-6
+    maps_ok = (sorted(pi) == ident and sorted(pf) == ident)
+    if not maps_ok:
+        emit('C03', 'c03-mappings-malformed:' + (
+            'list' if len(res['inputs']) > 1 else 'single'),
+            f'with_mapping=True reports initial/final mapping {list(pi)}/{list(pf)} for a '
+            f'{n}-qudit target (not permutations of its qudits)', res, idx)
+        pi, pf = ident, ident
     if isinstance(inp, UnitaryMatrix):
         d = V.get_distance_from(inp)
         ck.bump('c03_distance_decades',
                 'exact' if d < 1e-7 else f'1e{int(math.floor(math.log10(d)))}')
-        if d > bud:
-            # does it match once the reported mappings are applied?
-            A = V.numpy @ embed_matrix(n, radix, list(pi), n)
-            B = embed_matrix(n, radix, list(pf), n) @ inp.numpy
-            d2 = hs_dist(A, B)
-            if d2 <= bud and (list(pi) != ident or list(pf) != ident):
-                emit('C03', f"c03-unitary-permuted:L{j['level']}",
-                     f'the returned circuit implements the target only up to '
-                     f'the qudit permutations pi={list(pi)}, pf={list(pf)} '
-                     f'(distance {d:.3e} to the target itself)', res, idx)
-            else:
-                emit('C03', f"c03-unitary-distance:L{j['level']}:"
-                     f"{j['model']['gates']}:w{n}",
-                     f'distance to the target {d:.3e} > budget {bud:.3e}',
-                     res, idx)
+        # the contract that can be observed: V = P(pf)^T . U . P(pi) under the mappings returned
+        # with with_mapping=True (identity below level 4) -- evaluated for EVERY output
+        A = V.numpy @ embed_matrix(n, radix, list(pi), n)
+        B = embed_matrix(n, radix, list(pf), n) @ inp.numpy
+        d2 = hs_dist(A, B)
+        trivial = list(pi) == ident and list(pf) == ident
+        ck.bump('c03_unitary_under_mappings',
+                ('identity' if trivial else 'non-identity')
+                + ('/ok' if d2 <= bud else '/WRONG'))
+        if d2 > bud:
+            emit('C03', f"c03-unitary-distance:L{j['level']}:"
+                 f"{j['model']['gates']}:w{n}",
+                 f'under the mappings reported with with_mapping=True (pi={list(pi)}, '
+                 f'pf={list(pf)}) the returned circuit is at distance {d2:.3e} > budget '
+                 f'{bud:.3e} from the target (distance to the target itself, no '
+                 f'relabelling: {d:.3e}): wrong even under the reported mappings',
+                 res, idx)
+        elif d > bud:
+            emit('C03', f"c03-unitary-permuted:L{j['level']}",
+                 f'the returned circuit implements the target only up to '
+                 f'the qudit permutations pi={list(pi)}, pf={list(pf)} '
+                 f'(distance {d:.3e} to the target itself; correct under the reported '
+                 f'mappings)', res, idx)
         return
     tol = 1e-6 + 10 * EPS
     zero = np.zeros(radix ** n, dtype=complex)
@@ -1445,6 +1649,58 @@ def correspondence(ck: Check, results: list[dict], pid: str, names: set[str],
 # =========================================================================
 # the check
 # =========================================================================
+class _Quiet:
+    """Stand-in for the Check object while an oracle is only asked for its verdict."""
+    def bump(self, *a, **k):
+        pass
+
+
+def answers(res: dict, inp, out, K: int) -> bool:
+    """Is `out` a correct answer for `inp` (C01 / C03 oracle silent)?"""
+    from bqskit.ir.circuit import Circuit
+    hits: list = []
+
+    def emit(prop, sig, what, r, i):
+        if not sig.startswith(('c03-unitary-permuted', 'c03-mappings-malformed')):
+            hits.append(sig)
+    try:
+        if isinstance(inp, Circuit):
+            oracle_c01(_Quiet(), res, inp, out, K, 0, emit)
+        else:
+            oracle_c03(_Quiet(), res, inp, out, K, 0, emit)
+    except Exception:
+        return False
+    return not hits
+
+
+def list_order_oracle(ck: Check, res: dict, emit):
+    """compile([x0, x1, ...]) returns one result per input IN ORDER (C03): when result k does
+    not answer input k, look for the input it does answer -- a permuted list is reported as such
+    (with the permutation), besides what the per-result oracles say."""
+    ins, outs = res['inputs'], res['out']
+    K = max(res['K'] or [0])
+    n = len(ins)
+    ck.bump('list_jobs_by_sizes', '-'.join(str(x.num_qudits) for x in ins))
+    wrong = [k for k in range(n) if not answers(res, ins[k], outs[k], K)]
+    if not wrong:
+        return
+    src = []
+    for k in range(n):
+        m = [i for i in range(n) if answers(res, ins[i], outs[k], K)]
+        src.append(m[0] if len(m) >= 1 else None)
+    if all(x is not None for x in src) and sorted(src) == list(range(n)):
+        emit('C03', 'c03-list-order',
+             f'compile() of a list of {n} inputs (widths '
+             f'{[x.num_qudits for x in ins]}) returns the right results in the wrong '
+             f'order: result k answers input {src}[k]', res, wrong[0])
+    else:
+        emit('C03', 'c03-list-order',
+             f'compile() of a list of {n} inputs (widths '
+             f'{[x.num_qudits for x in ins]}): results {wrong} do not answer the inputs '
+             f'at their positions (result k answers input {src}[k], None = no input)',
+             res, wrong[0])
+
+
 def replay_of(res: dict, idx: int) -> dict:
     j = res['job']
     d = {'job': j, 'input_index': idx, 'workers': res.get('workers')}
@@ -1539,6 +1795,18 @@ def evaluate(ck: Check, results: list[dict], pid: str, log):
             emit('C03', 'c03-list-length', f'{len(res["inputs"])} inputs, '
                  f'{len(outs)} results', res, 0)
             continue
+        mon = res.get('monitor')
+        if mon:
+            for k in ('foreach_entries', 'blocks', 'discriminating_blocks',
+                      'entries_nonidentity_placement'):
+                ck.bump('foreach_contract_monitor', k, mon.get(k, 0))
+            for v in mon.get('violations', [])[:2]:
+                emit('C02', f"c02-foreach-submodel-not-connectivity:L{j['level']}",
+                     'ForEachBlockPass handed a block a sub-model that is not the restriction '
+                     'of the circuit\'s current connectivity (data.model + data.placement): '
+                     + v, res, 0)
+        if len(outs) > 1:
+            list_order_oracle(ck, res, emit)
         for idx, (inp, out) in enumerate(zip(res['inputs'], outs)):
             ncomp += 1
             K = res['K'][idx] if res['K'] and idx < len(res['K']) else 0
@@ -1584,6 +1852,76 @@ def evaluate(ck: Check, results: list[dict], pid: str, log):
                          f'{len(results)} jobs: {lost_jobs[:5]}')
     ck.coverage['compile_calls'] = len(results)
     ck.coverage['runtime_workers'] = results[0].get('workers') if results else 0
+
+
+def stage_stream(ck: Check, pid: str, log):
+    """Stage-level stream (harness/pipe_stage.py): the mapping fragments compile() builds, run in
+    process on inputs no full compile() of the batch can afford, C01 oracle by state-vector
+    simulation under the reported mappings + the coupling clause of C02.  Validates the contract
+    of the mapping leaves that `C02_Pipe_sound` assumes (hypothesis `Contracts`)."""
+    from harness.pipe_stage import run_stage_stream, stage_cases
+    import hashlib as _h
+    src = (VERIF / 'harness' / 'pipe_stage.py').read_bytes()
+    key = _h.sha256((repo_sha() + f'/{ck.seed}/{ck.tier}/').encode() + src).hexdigest()[:24]
+    f = CACHE / f'stage-{key}.pkl'
+    CACHE.mkdir(exist_ok=True)
+    rs = None
+    if f.exists():
+        try:
+            rs = pickle.loads(f.read_bytes())
+        except Exception:
+            rs = None
+    if rs is None:
+        rs = run_stage_stream(ck.seed, ck.tier, log)
+        f.write_bytes(pickle.dumps(rs))
+        for old in CACHE.glob('stage-*.pkl'):
+            if time.time() - old.stat().st_mtime > 6 * 3600:
+                old.unlink()
+    nbt = 0
+    for i, r in enumerate(rs):
+        c = r['case']
+        ck.count(('stage', i, c['rseed']))
+        ck.bump('stage_cases', f"{c['stage']}/{c.get('heur') or ('params' if c.get('params') else 'stock')}/{c['shape']}")
+        if r.get('backtracks') and not c.get('heur'):
+            ck.bump('stage_backtracking_cases_stock_scores', None, 1)
+        ck.bump('stage_two_qudit_gates', None, r['npairs'])
+        if r.get('backtracks'):
+            nbt += 1
+            ck.bump('stage_backtracks_total', None, r['backtracks'])
+        replay = {'stage_case': c, 'pairs': r['pairs'],
+                  'how': 'harness.pipe_stage.run_stage_case({**stage_case, "pairs": pairs})',
+                  'pi': r.get('pi'), 'pf': r.get('pf')}
+        tag = f"{c['stage']}:{c.get('heur') or ('params' if c.get('params') else 'stock')}"
+        if r['exc'] == 'timeout':
+            ck.bump('stage_timeouts', tag)
+            continue
+        if r['exc']:
+            if pid == 'C01':
+                ck.violation(f"c01-stage-raises:{tag}:{r['exc'].split(':')[0]}",
+                             f"the mapping fragment of compile() ({c['stage']}) raises on a "
+                             f"{c['n']}-qubit circuit with {r['npairs']} two-qudit gates on a "
+                             f"{c['shape']} of {c['m']}: {r['exc']}", replay, found_input=True)
+            continue
+        for b in r['bad']:
+            sem = b.startswith(('the mapped circuit differs', 'mappings '))
+            if sem and pid == 'C01':
+                ck.violation(
+                    f'c01-stage-semantics:{tag}',
+                    f"mapping fragment of compile() ({c['stage']}"
+                    + (f", swap heuristic replaced by '{c['heur']}'" if c.get('heur') else '')
+                    + (f", GeneralizedSabreRoutingPass({c['params']})" if c.get('params')
+                       else '')
+                    + f") on a {c['n']}-qubit circuit with {r['npairs']} two-qudit gates, "
+                    f"{c['shape']} of {c['m']} qudits, {r.get('backtracks', 0)} backtracking "
+                    f"episodes: {b}", replay, found_input=True)
+            if not sem and pid == 'C02':
+                ck.violation(
+                    f'c02-stage-not-executable:{tag}',
+                    f"mapping fragment of compile() ({c['stage']}) on a {c['n']}-qubit "
+                    f"circuit, {c['shape']} of {c['m']} qudits: {b}", replay,
+                    found_input=True)
+    ck.coverage['stage_cases_with_backtracking'] = nbt
+    ck.coverage['stage_cases_total'] = len(rs)
 
 
 def probe_qutrit_sq(ck: Check, pid: str):
@@ -1906,6 +2244,8 @@ def run_check(ck: Check, pid: str):
         results = get_batch(ck, log)
     # 4. oracles
     evaluate(ck, results + extra, pid, log)
+    if pid in ('C01', 'C02') and not ck.replay_path:
+        stage_stream(ck, pid, log)
     probe_qutrit_sq(ck, pid)
     probe_fixed_in_process(ck, pid)
     malformed_stream(ck, pid)
